@@ -267,7 +267,7 @@ def _strict_strategy(tier):
     return dir_case(tier, plans=("valid", "valid", "repairable", "any", "any", "any", "any", "fatal1"), fix_choices=[None])
 
 
-@subcheck("C12", "strict_accept", _strict_strategy, quick=1000, thorough=30000,
+@subcheck("C12", "strict_accept", _strict_strategy, quick=1000, thorough=15000,
           doc="directories with any combination of injected defects; strict validation raises ValueError iff the "
               "predicate written from conditions 1-6.3.2 rejects; directory untouched; discovery by prefix/suffix",
           required_classes=["valid", "defects_1", "defects_2", "defects_3plus", "defect_ref_over", "defect_ali_long",
@@ -281,8 +281,6 @@ def _strict_check(case):
         ds = _dataset(data_dir, case)
         _expect_members(ds, model)
         ds_defects = _strict_step(ds, data_dir, case, model, disk)
-        # same verdict from a second, fresh data set object
-        _strict_step(_dataset(data_dir, case), data_dir, case, model, disk)
     cl = _classes(ds_defects, model, None)
     if len(model["utts"]) < len(case["utts"]):
         cl.append("utt_missing_in_subdir")
@@ -299,7 +297,7 @@ def _fix_strategy(tier):
                     fix_choices=FIXES + ([4, 7] if tier == "thorough" else []))
 
 
-@subcheck("C12", "fix_repair", _fix_strategy, quick=1500, thorough=40000,
+@subcheck("C12", "fix_repair", _fix_strategy, quick=1500, thorough=20000,
           doc="same directories with fix=k: raises iff some defect is not among the documented repairs for k; "
               "otherwise files on disk == oracle's repaired tensors, strict validation then passes, a second fix "
               "pass changes nothing; a failed pass leaves every file untouched or repaired",
@@ -371,7 +369,7 @@ def _transplant(case, i, part, src):
     return part, copy.deepcopy(src[part])
 
 
-@subcheck("C12", "history", _history_case, quick=400, thorough=15000,
+@subcheck("C12", "history", _history_case, quick=400, thorough=6000,
           doc="validate / fix(k) / corrupt-one-file / report histories on one directory and one data set object; "
               "every step is compared with the reference model (accept, repair, raise, recount)",
           required_classes=["fix_after_corrupt", "repaired", "unrepairable"])
@@ -474,7 +472,7 @@ def _info_strategy(tier):
     })
 
 
-@subcheck("C12", "info_report", _info_strategy, quick=800, thorough=25000,
+@subcheck("C12", "info_report", _info_strategy, quick=800, thorough=10000,
           doc="get-torch-spect-data-dir-info (no flag / --strict / --fix k) on valid, repairable and invalid "
               "directories: raises iff validation must; output == key-by-key recount of the (repaired) stored "
               "tensors by the documented key definitions; --fix k repairs on disk like fix=k",
@@ -567,7 +565,7 @@ def _sos_strategy(tier):
     })
 
 
-@subcheck("C12", "sos_eos_roundtrip", _sos_strategy, quick=1500, thorough=40000,
+@subcheck("C12", "sos_eos_roundtrip", _sos_strategy, quick=1500, thorough=20000,
           doc="SpectDataSet / LangDataSet over 1-D and 2-D references including empty ones: reading yields "
               "[sos] + tokens + [eos] (2-D: rows with -1 boundaries); write_hyp of what was read, loaded raw, "
               "equals the bare tokens; tuple layout for every suppress_* combination",
@@ -689,7 +687,7 @@ def _strip_strategy(tier):
     })
 
 
-@subcheck("C12", "write_hyp_strip", _strip_strategy, quick=600, thorough=20000,
+@subcheck("C12", "write_hyp_strip", _strip_strategy, quick=600, thorough=8000,
           doc="hypotheses garbage + [sos] + body + [eos] + garbage (garbage may repeat sos before / eos after): "
               "stored file == body as a long tensor (documented: drop through the last sos, from the first eos)",
           required_classes=["garbage_before", "garbage_after", "empty_body"])
